@@ -67,8 +67,11 @@ def check(run, ctx):
                     run.finding(X2, m.name, f"catches:{sorted(hn)}", f"{m.rel}:{n.lineno} catches {sorted(hn)}: sys.exit from a command tail would be swallowed", f"{m.rel}:{n.lineno}")
     hle = repo.func("src.cli.utils.handle_linting_error")
     ex = [n for n in ast.walk(hle.node) if isinstance(n, ast.Call) and dotted(n.func) == "sys.exit"]
-    if len(ex) == 1 and isinstance(ex[0].args[0], ast.Constant) and ex[0].args[0].value == 2 and hle.node.body[-1].value is ex[0]:
-        run.ok(X2, "handle_linting_error", "ends with sys.exit(2)")
+    leaves = [n for n in ast.walk(hle.node) if isinstance(n, (ast.Raise, ast.Return)) or (isinstance(n, ast.Call) and dotted(n.func) in ("os._exit", "exit", "quit", "ctx.exit"))]
+    if leaves:
+        run.finding(X2, "handle_linting_error", f"other-exit:{norm(leaves[0])}", f"handle_linting_error can be left through `{norm(leaves[0])}` before sys.exit(2): the error then ends the process with another status (an uncaught exception exits 1, the 'violations found' code)", f"{hle.module.rel}:{leaves[0].lineno}")
+    elif len(ex) == 1 and isinstance(ex[0].args[0], ast.Constant) and ex[0].args[0].value == 2 and isinstance(hle.node.body[-1], ast.Expr) and hle.node.body[-1].value is ex[0]:
+        run.ok(X2, "handle_linting_error", "every path ends with sys.exit(2): no raise/return/other exit before the final statement")
     else:
         run.finding(X2, "handle_linting_error", "exit2", "handle_linting_error does not end with sys.exit(2)", hle.loc)
     rlc = repo.func("src.cli.linters.shared.run_linter_command")
